@@ -74,6 +74,14 @@ class FullFrontend(ConstrainedFrontend):
     #
 
     def _get_solver(self):
+        if self._solver_backend.reuse_z3_solver:
+            # The backend hands the same solver object to every frontend of this thread. Whatever another frontend
+            # (a branch, the parent, an unrelated solver) asserted last is still in it, so always start from the
+            # reset solver that solver() returns and re-add our own constraints.
+            self._tls.solver = self._solver_backend.solver(timeout=self.timeout, max_memory=self.max_memory)
+            self._add_constraints()
+            return self._tls.solver
+
         if getattr(self._tls, "solver", None) is None:
             self._tls.solver = self._solver_backend.solver(timeout=self.timeout, max_memory=self.max_memory)
             self._add_constraints()
@@ -88,11 +96,7 @@ class FullFrontend(ConstrainedFrontend):
         if len(self._to_add) > 0:
             self._add_constraints()
 
-        solver = self._tls.solver
-        if self._solver_backend.reuse_z3_solver:
-            # we must re-add all constraints
-            self._add_constraints()
-        return solver
+        return self._tls.solver
 
     def _add_constraints(self):
         self._solver_backend.add(self._tls.solver, self.constraints, track=self._track)
@@ -332,7 +336,11 @@ class FullFrontend(ConstrainedFrontend):
             # all constraints are satisfied
             return ()
 
-        unsat_core = self._solver_backend.unsat_core(self._get_solver())
+        solver = self._get_solver()
+        if self._solver_backend.reuse_z3_solver:
+            # _get_solver() has just reset and refilled the shared solver: it must be checked again to report a core
+            self._solver_backend.check_satisfiability(extra_constraints=extra_constraints, solver=solver)
+        unsat_core = self._solver_backend.unsat_core(solver)
 
         return tuple(unsat_core)
 
